@@ -413,7 +413,8 @@ class Evaluator:
                 params, ret, body = self.spec_funcs[name]
                 if callable(body):
                     raise SpecError('builtin spec function %s has no concrete semantics' % name)
-                e2 = {pn: v for (pn, pt), v in zip(params, vals)}
+                e2 = dict(getattr(self, 'ghost_env', {}))     # ghost objects (CLOCK, TIMERS, ...) are global names
+                e2.update({pn: v for (pn, pt), v in zip(params, vals)})
                 return self.ev(ast.parse(body.strip(), mode='eval').body, e2, snap, old)
             raise SpecError('unknown spec function %s' % name)
         if isinstance(f, ast.Attribute):
@@ -548,6 +549,7 @@ def check_call(contract, func, kwargs, spec_funcs, describe=None, exc_lattice=No
     env = dict(kwargs)
     if extra_env:
         env.update(extra_env)
+        ev.ghost_env = dict(extra_env)
         for v in extra_env.values():
             uni.add(v)
     try:
